@@ -41,6 +41,13 @@ def pivot():
         U("A", message="ma"), U("H1", disabled=True, message="m", serialize=["h1"], flags_last=True), U("B", docs=[" db"]),
         U("H2", disabled=True, detailed_message="d2", attr_style="split"), U("C", message="mc", attr_style="trailing"),
     ], note="`disabled` after key = value items in the same attribute / split attributes / trailing comma"))
+    S.append(EnumSpec("Interleaved", [
+        U("A", docs=[" Get ready.", " The light is about to change."], message="amber", docs_interleave=True),
+        U("B", docs=[" one", "", " three"], raw_attrs=["#[allow(dead_code)]"], docs_interleave=True, serialize=["b", "bee"]),
+        U("C", docs=[" only"], message="c", docs_interleave=True),
+    ], note="doc lines split by other attributes (strum / allow) between them"))
+    S.append(EnumSpec("Prefixed", [U("DarkRed"), U("Blue", serialize=["b", "blue"], message="m"), U("Off", disabled=True)], prefix="colour/",
+                      serialize_all="kebab-case", note="enum-wide prefix: get_serializations lists the PARSE spellings, which never carry the prefix"))
     S.append(EnumSpec("DisEnds", [U("First", disabled=True, message="x"), U("Mid", message="mid", docs=[" md"]), U("Last", disabled=True, docs=[" l"])],
                       serialize_all="SCREAMING_SNAKE_CASE", note="disabled in first and last position, serialize_all on their serializations"))
     return S
